@@ -119,6 +119,9 @@ func (H) Gen(prop string, rng *rand.Rand, tier string) *core.Plan {
 	}
 	p.Ops = append(p.Ops, core.Op{K: "flush"}, core.Op{K: "query", S: fmt.Sprint(rng.Intn(1 << 30))}, core.Op{K: "query", S: fmt.Sprint(rng.Intn(1 << 30))})
 	p.Cfg["maporder"] = rng.Intn(2) // tape-chosen iteration order of Go maps in the code under test
+	if prop == "C11" {
+		p.Cfg["families"] = 1 + rng.Intn(2) // points of one or two hours: one or two data families per shard
+	}
 	return p
 }
 
@@ -221,6 +224,9 @@ func (r *run) write(op core.Op) {
 		si := rng.Intn(len(r.series))
 		// timestamps inside the first 10 minutes of the hour, slot aligned or not; duplicates and out of order happen
 		ts := Jan1 + int64(rng.Intn(60))*10000 + int64(rng.Intn(3))*3333
+		if fams := r.c.Plan.C("families", 1); fams > 1 {
+			ts += int64(rng.Intn(fams)) * 3600000
+		}
 		var fs []rows.Field
 		for fi, spec := range fieldSpecs {
 			if rng.Intn(3) == 0 && len(fs) > 0 {
@@ -512,7 +518,7 @@ func fmtTime(ms int64) string {
 	return fmt.Sprintf("2000-01-01 %02d:%02d:%02d", s/3600, (s/60)%60, s%60)
 }
 
-func genQuery(rng *rand.Rand, prop string) queryDef {
+func genQuery(rng *rand.Rand, prop string, fams int) queryDef {
 	q := queryDef{field: rng.Intn(len(fieldSpecs))}
 	if prop == "C10" {
 		q.field = 0
@@ -530,6 +536,14 @@ func genQuery(rng *rand.Rand, prop string) queryDef {
 	q.end = q.start + int64(1+rng.Intn(50))*10000 + 9000
 	if rng.Intn(3) == 0 {
 		q.start, q.end = Jan1, Jan1+3599000
+	}
+	if fams > 1 {
+		switch rng.Intn(3) {
+		case 0: // the second hour
+			q.start, q.end = q.start+3600000, q.end+3600000
+		case 1: // both families
+			q.end += 3600000
+		}
 	}
 	return q
 }
@@ -612,7 +626,7 @@ func aggregate(agg string, ps []point) (float64, []float64) {
 func (r *run) query(op core.Op, duringFlush bool) {
 	c := r.c
 	rng := rand.New(rand.NewSource(atoi(op.S)))
-	q := genQuery(rng, c.Plan.Prop)
+	q := genQuery(rng, c.Plan.Prop, c.Plan.C("families", 1))
 	sqlText := q.sql()
 	before := len(r.points) // every write completed before the query started
 	flushDone := true
